@@ -15,6 +15,9 @@ import Comdex.Model.LendRates
   lr.borrow  amount rate rrate gi rgi now prev            outcome i igc ri rigc
   lr.stable  amount rate now prev                         outcome i
   lr.track   trBefore x  paid trAfter                     (real lend-reward tracker step)
+  lr.rebalance stableRate poolStableRate utilisation   outcome newStableRate     (real ReBalanceStableRates)
+  lr.stamp   now lastInteractionAfter indexAfter indexReturned again   (real MsgCalculateLendRewards: the handler stores (index, now);
+                                                          again = real reward of a second calculation in the same block)
 outcome ∈ ok err panic. A `*.begin` line starts a new group; monitors relate the lines of one group pairwise
 (monotonicity) and triple-wise (two consecutive intervals against the combined interval), on the REAL outputs.
 -/
@@ -301,6 +304,19 @@ def handle (st : St) (seq : String) (f : List String) : St × List String :=
       let m2 := if tb ≥ 0 && tb < Dec.one && x ≥ 0 && !Comdex.Accrual.carryOk tb x paid ta then ["tracker_carry"] else []
       ({ st with lastTr := some ta }, cont ++ d ++ mons seq (m1 ++ m2))
     | _ => (st, [s!"BAD\t{seq}\tlr.track args"])
+  | ["lr.rebalance", s0, stt, u, o, s1] =>
+    match ints [s0, stt, u] with
+    | some [s0, stt, u] =>
+      let m := s!"ok\t{rebalance s0 stt u}"
+      let impl := if o = "ok" then s!"ok\t{s1}" else o
+      (st, if m = impl then [] else [s!"DIFF\t{seq}\trebalance {s0} {stt} {u}: model={m}\timpl={impl}"])
+    | _ => (st, [s!"BAD\t{seq}\tlr.rebalance args"])
+  | ["lr.stamp", now, last, gi, igc, again] =>
+    -- after the keeper function behind MsgCalculateInterestAndRewards the position carries (index returned, now): `AccL.after`;
+    -- `again` = what the REAL accrual function returns for a second calculation in the same block: zero time, zero reward
+    (st, (if now = last && gi = igc then [] else
+      [s!"DIFF\t{seq}\tlend position stamp: model=last {now} index {igc}\timpl=last {last} index {gi}"]) ++
+      (if again = "0" then [] else mons seq ["zero_time"]))
   | _ => (st, [s!"BAD\t{seq}\tunknown lr line"])
 
 end LendRatesDrv
